@@ -209,7 +209,10 @@ class MpReachNLRI(Attribute):
         else:
             nlri = binascii.b2a_hex(nlri_bin)
 
-        return dict(afi_safi=(afi, safi), nexthop=binascii.b2a_hex(nexthop_bin), nlri=binascii.b2a_hex(nlri_bin))
+        # an address family that is not decoded: the octets as hexadecimal text (text, so that the result can be reported
+        # and logged like every other decoded value)
+        return dict(afi_safi=(afi, safi), nexthop=binascii.b2a_hex(nexthop_bin).decode('ascii'),
+                    nlri=binascii.b2a_hex(nlri_bin).decode('ascii'))
 
     @classmethod
     def construct_mpls_vpn_nexthop(cls, nexthop):
